@@ -374,6 +374,44 @@ func C12(c *core.Ctx) {
 			}
 		}
 		c.Check("R1", "detach-through-dissociate:"+m, fn.Pos(), okLoop, "Sess."+m+" dissociates the URRs of the PDR's current list through diassociateURR")
+		// the bookkeeping is committed only after the data plane accepted the change: a failed
+		// Update/Remove PDR leaves the PDR in place, so its URRs are still referenced by it
+		var drv ssa.CallInstruction
+		core.Instrs(fn, func(in ssa.Instruction) {
+			if ci, ok := in.(ssa.CallInstruction); ok && ci.Common().IsInvoke() && ci.Common().Method.Name() == m {
+				drv = ci
+			}
+		})
+		if drv == nil {
+			c.Check("R1", "detach-after-driver:"+m, fn.Pos(), false, "Sess."+m+" does not call Driver."+m)
+			continue
+		}
+		var derr ssa.Value
+		if v := drv.Value(); v != nil {
+			if types.Identical(v.Type(), types.Universe.Lookup("error").Type()) {
+				derr = v
+			}
+			for _, r := range *v.Referrers() {
+				if ex, ok := r.(*ssa.Extract); ok && types.Identical(ex.Type(), types.Universe.Lookup("error").Type()) {
+					derr = ex
+				}
+			}
+		}
+		var commits []ssa.Instruction
+		for _, ci := range calls {
+			commits = append(commits, ci.(ssa.Instruction))
+		}
+		for _, st := range storesToField(fn, refF) {
+			commits = append(commits, st)
+		}
+		for _, st := range storesToField(fn, relF) {
+			commits = append(commits, st)
+		}
+		for i, in := range commits {
+			after := core.InstrDominates(drv.(ssa.Instruction), in) && derr != nil && nilKnownLoc(fn, in.Block(), derr, true)
+			c.Check("R1", fmt.Sprintf("detach-after-driver:%s#%d", m, i+1), in.Pos(), after,
+				"reference counts, URR lists and final queries of Sess."+m+" change only after Driver."+m+" returned without error")
+		}
 	}
 
 	// R2 marks
